@@ -16,6 +16,7 @@ package main
 import (
 	"bytes"
 	"encoding/hex"
+	"errors"
 	"fmt"
 	"reflect"
 	"runtime"
@@ -98,8 +99,86 @@ func (h *H) fail(kind, matcher, key, what string, body []string) {
 	} else {
 		name = fmt.Sprintf("%s-%s-%d", kind, name, len(h.seen))
 	}
-	rp := vh.WriteReplay(h.c.ReplayDir, prop, name, h.c.Seed, strings.Split(what, "\n"), body)
+	hdr := strings.Split(what, "\n")
+	if matcher == "" && len(body) == 1 {
+		if sb := h.shrink(body[0], what); sb != body[0] {
+			hdr = append(hdr, "shrunk from: "+clip(body[0]))
+			body = []string{sb}
+		}
+	}
+	rp := vh.WriteReplay(h.c.ReplayDir, prop, name, h.c.Seed, hdr, body)
 	h.res.Fail(kind, matcher, what, rp)
+}
+
+// shrink reduces a failing `T <schema> <hex>` / `U <hex>` line: greedily drops list elements and shortens strings of
+// the (parsable) input while the replay still fails with the same kind of message. Bounded effort.
+func (h *H) shrink(line, what string) string {
+	f := strings.Fields(line)
+	if len(f) < 2 || (f[0] != "T" && f[0] != "U") {
+		return line
+	}
+	key := what
+	if i := strings.IndexAny(key, ":\n"); i > 0 {
+		key = key[:i]
+	}
+	mk := func(b []byte) string { return strings.Join(append(append([]string{}, f[:len(f)-1]...), hx(b)), " ") }
+	budget := 150
+	fails := func(b []byte) bool {
+		if budget <= 0 {
+			return false
+		}
+		budget--
+		still, msg := h.replayBody([]string{mk(b)})
+		return still && strings.Contains(msg, key)
+	}
+	cur := unhx(f[len(f)-1])
+	if !fails(cur) {
+		return line
+	}
+	for progress := true; progress && budget > 0; {
+		progress = false
+		t, err := parseTree(cur)
+		if err != nil {
+			// not parsable: try cutting bytes off the end
+			for cut := len(cur) / 2; cut >= 1 && budget > 0; cut /= 2 {
+				if c := cur[:len(cur)-cut]; fails(c) {
+					cur, progress = c, true
+					break
+				}
+			}
+			continue
+		}
+		var ns []*node
+		t.all(&ns)
+		for idx := range ns {
+			if budget <= 0 || progress {
+				break
+			}
+			n := ns[idx]
+			if n.list {
+				for j := range n.kids {
+					c := t.clone()
+					var cs []*node
+					c.all(&cs)
+					cn := cs[idx]
+					cn.kids = append(cn.kids[:j], cn.kids[j+1:]...)
+					if b := c.enc(); len(b) < len(cur) && fails(b) {
+						cur, progress = b, true
+						break
+					}
+				}
+			} else if len(n.b) > 1 {
+				c := t.clone()
+				var cs []*node
+				c.all(&cs)
+				cs[idx].b = cs[idx].b[:len(n.b)/2]
+				if b := c.enc(); len(b) < len(cur) && fails(b) {
+					cur, progress = b, true
+				}
+			}
+		}
+	}
+	return mk(cur)
 }
 
 type goOut struct {
@@ -203,7 +282,9 @@ func (h *H) typedCase(e *entry, bs []byte, label string, wantVal string, meas bo
 		h.fail("oracle", "", "reencode "+e.name, fmt.Sprintf("%s: a value the decoder accepted cannot be re-encoded: %v %v", e.name, eerr, epan), []string{line})
 		return true, deep
 	}
-	if av, aerr := e.abstractGo(o.g); aerr != nil {
+	if av, aerr := e.abstractGo(o.g); errors.Is(aerr, errStale) {
+		h.res.Dist("value-readback-skipped-stale-mirror:" + e.name)
+	} else if aerr != nil {
 		h.fail("correspondence", "", "abstract "+e.name, fmt.Sprintf("%s: cannot read the decoded Go value back: %v", e.name, aerr), []string{line})
 	} else if av.String() != lf[1] {
 		h.fail("correspondence", "", "value "+e.name, fmt.Sprintf("%s (%s): decoded values differ\nreal  %s\nmodel %s", e.name, label, av.String(), lf[1]), []string{line})
@@ -494,6 +575,23 @@ func run(c *vh.Ctx) error {
 			res.TracesVsImpl++
 			if round == 0 && len(res.Samples) < 5 && v.nested() {
 				res.Sample(map[string]interface{}{"schema": e.name, "value": clip(vt), "bytes": clip(hx(bs)), "accepted": acc})
+			}
+			// honest Go value -> REAL encoder -> real decoder + model (round trip on the real code)
+			if g0, gerr := goValue(c.R, e); gerr == nil {
+				if gb, eerr, epan := goEncode(g0); eerr != nil || epan != nil {
+					res.Dist("go-valid-outside-encoder-domain")
+				} else if av, aerr := e.abstractGo(g0); aerr != nil {
+					if !errors.Is(aerr, errStale) {
+						res.Dist("go-valid-not-a-model-value")
+					}
+				} else {
+					h.typedCase(e, gb, "go-valid", av.String(), false)
+					res.Count("T|"+e.name+"|"+string(gb), av.nested())
+					res.Dist("typed-go-valid")
+					res.TracesVsImpl++
+				}
+			} else {
+				res.Dist("go-valid-no-generator")
 			}
 			t, perr := parseTree(bs)
 			if perr != nil {
